@@ -218,6 +218,9 @@ def run_kani_group(prop_id, tier, target, modules, harnesses, support=(), elide_
     hs = [h for h in harnesses if tier == "thorough" or h.tier == "quick"]
     if os.environ.get("VERIF_DEV_ENGINES", "KM").find("K") < 0:  # development aid only
         return []
+    if os.environ.get("VERIF_DEV_ONLY"):  # development aid only: run the harnesses whose name contains one of the given substrings
+        subs = os.environ["VERIF_DEV_ONLY"].split(",")
+        hs = [h for h in harnesses if any(x in h.name for x in subs)]
     if not hs:
         return []
     if harness_timeout is None:
